@@ -45,6 +45,16 @@ def _gen(depth):
     # several referenced keys together with an inline non-ASCII digit key
     yield {(1,): "a", (2,): "b", (3,): "c", ("k",): "d", "٣": "e"}
     yield {(1,): "a", 5: "b", None: "c", "7": "d", "²": "e", "x": "f"}
+    # referenced keys whose VALUES contain dicts with referenced keys again (reference ids are allocated while the value is encoded)
+    if depth >= 2:
+        inner = [{1: 2}, {2: "x"}, {None: None}, {(1, "a"): [1]}, {"7": {3: 4}}, [{5: 6}], ({7: 8},)]
+        for k in (1, None, (1,), "7", "x"):
+            for v in inner:
+                yield {k: v}
+                yield {k: v, 9: {k: v}}
+                yield [{k: v}, {k: {k: v}}]
+        yield {1: {2: {3: {4: "deep"}}}}
+        yield {(1,): {(2,): "a"}, (3,): {(4,): "b", 5: {6: "c"}}}
 
 
 def typed_eq(a, b):
